@@ -96,6 +96,7 @@ type propInfo struct {
 	Assume   []string `json:"assume"`
 	ExhaustN int      `json:"exhaust_n"`
 	Scen     []string `json:"scenarios"`
+	Require  []string `json:"require"`
 }
 
 type knownFinding struct {
@@ -492,6 +493,23 @@ func check(prop, tier string, seed uint64, runsOverride int, workers int) int {
 		"repo_tree":           tree,
 		"engine":              1,
 		"harness_trouble":     trouble,
+	}
+	// reach self-check: the rare conditions this property's verdict rests on must actually have occurred;
+	// a probe or fault kind stuck at zero over a full-size batch means the workload has gone blind
+	stuck := []string{}
+	if agg.Runs >= 50000 {
+		for _, r := range pi.Require {
+			if agg.Probes[r] == 0 && agg.Faults[r] == 0 {
+				stuck = append(stuck, r)
+			}
+		}
+	}
+	cov["required_conditions"] = pi.Require
+	cov["required_conditions_never_reached"] = stuck
+	if len(stuck) > 0 {
+		trouble++
+		cov["harness_trouble"] = trouble
+		fmt.Printf("HARNESS TROUBLE: required condition(s) never reached in %d runs: %s\n", agg.Runs, strings.Join(stuck, ", "))
 	}
 	if pi.ExhaustN > 0 {
 		cov["exhaustive"] = agg.Runs >= pi.ExhaustN && trouble == 0
